@@ -1,6 +1,7 @@
 // Black-box decoder driver (public API only).
 //  dec <kind> <flags> <mode> <seed> <memlimit> <hex>
 //   kind: 0 stream_decoder  1 stream_decoder_mt  2 auto_decoder  3 alone_decoder  4 lzip_decoder
+//         7 index_decoder (input = an Index field; output = the decoded Index re-encoded)  10 index_encoder (of the Index in the input)
 //         5 raw LZMA2 (flags = dict size)  6 stream_buffer_decode  7 microlzma (n/a)
 //   mode: 0 one call  1 one input byte per call  2 one output byte per call  3 random chunks + empty calls
 //         4 two pieces split at <seed>
@@ -45,7 +46,7 @@ int main(void)
 		char *h = line + off; size_t n = 0;
 		if (*h != '-') while (h[0] && h[1] && h[0] != '\n') { in[n++] = (uint8_t)(hexv(h[0]) << 4 | hexv(h[1])); h += 2; }
 		rng_s = seed * 2654435761u + 1;
-		lzma_stream s = LZMA_STREAM_INIT; lzma_ret r;
+		lzma_stream s = LZMA_STREAM_INIT; lzma_ret r; lzma_index *idx7 = NULL;
 		if (memlimit == 0) memlimit = UINT64_MAX;
 		lzma_options_lzma ol; lzma_lzma_preset(&ol, 0); ol.dict_size = flags;
 		lzma_filter f2[2] = {{LZMA_FILTER_LZMA2, &ol}, {LZMA_VLI_UNKNOWN, NULL}};
@@ -64,11 +65,14 @@ int main(void)
 		case 3: r = lzma_alone_decoder(&s, memlimit); break;
 		case 4: r = lzma_lzip_decoder(&s, memlimit, flags); break;
 		case 5: r = lzma_raw_decoder(&s, f2); break;
+		case 7: r = lzma_index_decoder(&s, &idx7, memlimit); break;
+		case 10: { uint64_t ml = UINT64_MAX; size_t p0 = 0; r = lzma_index_buffer_decode(&idx7, &ml, NULL, in, &p0, n);
+			if (r == LZMA_OK) { r = lzma_index_encoder(&s, idx7); n = 0; } break; }
 		case 8: r = lzma_raw_decoder(&s, sf); break;
 		case 9: r = lzma_microlzma_decoder(&s, mcomp, muncomp, mexact, mdict); break;
 		default: r = LZMA_PROG_ERROR;
 		}
-		if (r != LZMA_OK) { printf("%d 0 0 0 -\n", (int)r); fflush(stdout); lzma_end(&s); continue; }
+		if (r != LZMA_OK) { printf("%d 0 0 0 -\n", (int)r); fflush(stdout); lzma_end(&s); lzma_index_end(idx7, NULL); continue; }
 		size_t ip = 0, op = 0; unsigned calls = 0; int stall = 0, finishing = 0, idle = 0;
 		alarm(kind == 1 ? 25 : 120);
 		while (1) {
@@ -106,10 +110,15 @@ int main(void)
 			if (di == 0 && dd == 0 && (il == n - ip) && finishing) { if (++idle > (kind == 1 ? 150 : 3000)) { r = 98; break; } } else idle = 0;
 			if (calls > 80000000) { r = 99; break; }
 		}
+		if (kind == 7 && r == LZMA_STREAM_END && idx7) {
+			// the decoded Index, re-encoded, stands for the result
+			op = 0; if (lzma_index_buffer_encode(idx7, out, &op, OUTCAP) != LZMA_OK) op = 0;
+		}
 		printf("%d %llu %llu %u ", (int)r, (unsigned long long)s.total_in, (unsigned long long)s.total_out, calls);
 		if (!op) printf("-"); for (size_t i = 0; i < op; i++) printf("%02x", out[i]);
 		printf("\n"); fflush(stdout);
 		lzma_end(&s);
+		if (kind == 10 || (kind == 7 && r == LZMA_STREAM_END)) lzma_index_end(idx7, NULL);
 		if (have_sf) lzma_filters_free(sf, NULL);
 	}
 	free(in); free(out);
